@@ -1182,7 +1182,7 @@ def ext_part(chk, rng, tier, dist, drv=None):
                 vs = [rng.choice([0, 1, p - 1, p, bound, rng.range(0, bound)]) for _ in range(2 * k - 1)]
                 L.append(("ginit %d" % sum(x << (bits * i) for i, x in enumerate(vs)), "ginit", vs))
             for n in [1, 2, min(maxn, 3), min(maxn, 8), maxn if maxn <= 64 else 64] * (2 if tier == "quick" else 10):
-                n = max(1, n)
+                n = max(1, min(n, maxn))      # more than _maxn products overflow a digit of the packed accumulator (documented bound)
                 xs = [ez() if not rng.chance(1, 5) else q - 1 for _ in range(n)]
                 ys = [ez() if not rng.chance(1, 5) else q - 1 for _ in range(n)]
                 L.append(("gdot %d | %s | %s" % (n, " ".join(map(str, xs)), " ".join(map(str, ys))), "gdot", (xs, ys)))
